@@ -5,10 +5,13 @@
  *   PRE <op> ...            main thread, before the producers are launched
  *   PRODUCER <k> <op> ...   k = 1..3, run concurrently
  *   POST <op> ...           main thread, after the producers were joined (before clean up)
- *      ops:  L<level>:<len>:<shape>   one log call at <level> 1..6 with a payload of <len> characters
+ *      ops:  L<level>:<len>:<shape>[:<subj>]   one log call at <level> 1..6 with a payload of <len> characters, for log
+ *                                     subject <subj> (0 = a built-in one, 1..NSUBJ-2 = registered here with names of
+ *                                     increasing length, NSUBJ-1 = never registered)
  *            S<level>                 aws_logger_set_log_level   (PRE / POST only)
  *            P                        schedule point
- *   FMT <total> <level> <len> <shape>     direct aws_format_standard_log_line into a buffer of <total> bytes
+ *   (LOGGER takes an optional third word, iso | rfc: the date format of the standard formatter)
+ *   FMT <total> <level> <len> <shape> [<subject name length>]    direct aws_format_standard_log_line into a buffer of <total> bytes
  *   NOALLOC <filter> <level> <len> <shape>  one call through aws_logger_init_noalloc writing to a memory stream
  * The log message is   <shape-dependent preamble>@<k>.<seq>@<payload: len x 'x'>$   so that the writer side can
  * recognise whose line it is and whether the message is complete. */
@@ -23,7 +26,7 @@
 #include <aws/common/string.h>
 #include <aws/common/thread.h>
 
-#define MAXOPS 24
+#define MAXOPS 40
 #define MAXP 4
 static const char *LEVELS[] = {"NONE", "FATAL", "ERROR", "WARN", "INFO", "DEBUG", "TRACE"};
 
@@ -95,6 +98,24 @@ static void describe_line(const uint8_t *p, size_t n) {
             break;
         }
     }
+    /* length of the subject name: what stands in the fourth pair of brackets */
+    long slen = -1;
+    {
+        int open = 0;
+        for (size_t i = 0; i < n; ++i) {
+            if (p[i] == '[' && ++open == 4) {
+                size_t j = i + 1;
+                while (j < n && p[j] != ']') {
+                    j++;
+                }
+                if (j < n) {
+                    slen = (long)(j - i - 1);
+                }
+                break;
+            }
+        }
+    }
+    vh_int("slen", slen);
     vh_int("len", (long long)n);
     vh_int("nl", (long long)nl);
     vh_int("nul", (long long)nul);
@@ -114,6 +135,7 @@ static int writer_write(struct aws_log_writer *w, const struct aws_string *outpu
     vh_int("afterclose", closed_flag);
     describe_line(aws_string_bytes(output), output->len);
     vh_end();
+    vs_point(); /* a writer takes time: other threads may run while a line is being written */
     return AWS_OP_SUCCESS;
 }
 static void writer_clean_up(struct aws_log_writer *w) {
@@ -123,9 +145,32 @@ static struct aws_log_writer_vtable writer_vtable = {.write = writer_write, .cle
 
 static char payload[70000];
 
-#define EMIT(...) AWS_LOGF((enum aws_log_level)level, AWS_LS_COMMON_GENERAL, __VA_ARGS__)
+/* log subjects: 0 = built-in, 1..NSUBJ-2 registered below, NSUBJ-1 never registered ("Unknown") */
+#define NSUBJ 11
+#define VERIF_PKG 20
+static const int subj_len[NSUBJ] = {12, 1, 13, 40, 80, 88, 89, 90, 120, 300, 7};
+static char subj_names[NSUBJ][304];
+static struct aws_log_subject_info subj_infos[NSUBJ];
+static struct aws_log_subject_info_list subj_list;
+static aws_log_subject_t subj_id(int i) {
+    return i == 0 ? (aws_log_subject_t)AWS_LS_COMMON_GENERAL : (aws_log_subject_t)(AWS_LOG_SUBJECT_BEGIN_RANGE(VERIF_PKG) + (unsigned)i - 1);
+}
+static void subjects_register(void) {
+    for (int i = 1; i < NSUBJ - 1; ++i) {
+        memset(subj_names[i], 'a' + i, (size_t)subj_len[i]);
+        subj_names[i][subj_len[i]] = 0;
+        subj_infos[i - 1].subject_id = subj_id(i);
+        subj_infos[i - 1].subject_name = subj_names[i];
+        subj_infos[i - 1].subject_description = "verif";
+    }
+    subj_list.subject_list = subj_infos;
+    subj_list.count = NSUBJ - 2;
+    aws_register_log_subject_info_list(&subj_list);
+}
+
+#define EMIT(...) AWS_LOGF((enum aws_log_level)level, subj_id(subj), __VA_ARGS__)
 /* one log call through the global logger, in one of several format-argument shapes */
-static void emit_log(int level, int k, int seq, int len, int shape) {
+static void emit_log(int level, int k, int seq, int len, int shape, int subj) {
     switch (shape) {
         case 1:
             EMIT("k=%d n=%zu @%d.%d@%.*s$", k, (size_t)len, k, seq, len, payload);
@@ -146,17 +191,19 @@ static void do_ops(struct prog *pg) {
     for (int i = 0; i < pg->nops; ++i) {
         const char *op = pg->ops[i];
         if (op[0] == 'L') {
-            int level = 0, len = 0, shape = 0;
-            sscanf(op + 1, "%d:%d:%d", &level, &len, &shape);
+            int level = 0, len = 0, shape = 0, subj = 0;
+            sscanf(op + 1, "%d:%d:%d:%d", &level, &len, &shape, &subj);
+            subj = subj < 0 || subj >= NSUBJ ? 0 : subj;
             int seq = ++pg->seq;
             vh_begin("LogBegin");
             vh_int("k", pg->k);
             vh_int("seq", seq);
             vh_int("level", level);
             vh_int("plen", len);
+            vh_int("sl", subj_len[subj]);
             vh_int("on", vs_self());
             vh_end();
-            emit_log(level, pg->k, seq, len, shape);
+            emit_log(level, pg->k, seq, len, shape, subj);
             vh_begin("LogEnd");
             vh_int("k", pg->k);
             vh_int("seq", seq);
@@ -183,15 +230,18 @@ static void parse_ops(struct prog *pg, char **save) {
     }
 }
 
-static void run_fmt(int total, int level, int len, int shape, bool noalloc, int filter) {
+static void run_fmt(int total, int level, int len, int shape, bool noalloc, int filter, int sl) {
     if (!noalloc) {
+        char *sname = malloc((size_t)sl + 1);
+        memset(sname, 's', (size_t)sl);
+        sname[sl] = 0;
         char *buf = malloc((size_t)total); /* exact size: one byte over is an ASan report */
         memset(buf, 0x7e, (size_t)total);
         struct aws_logging_standard_formatting_data d = {
             .log_line_buffer = buf,
             .total_length = (size_t)total,
             .level = (enum aws_log_level)level,
-            .subject_name = "verif-subject",
+            .subject_name = sname,
             .format = NULL,
             .date_format = AWS_DATE_FORMAT_ISO_8601,
             .allocator = vh_alloc(),
@@ -218,6 +268,7 @@ static void run_fmt(int total, int level, int len, int shape, bool noalloc, int 
         vh_int("total", total);
         vh_int("level", level);
         vh_int("plen", len);
+        vh_int("sl", sl);
         vh_rc(rc);
         vh_int("written", (long long)d.amount_written);
         if (rc == 0 && d.amount_written <= (size_t)total) {
@@ -227,6 +278,7 @@ static void run_fmt(int total, int level, int len, int shape, bool noalloc, int 
         }
         vh_end();
         free(buf);
+        free(sname);
     } else {
         char *mem = NULL;
         size_t memsz = 0;
@@ -235,12 +287,19 @@ static void run_fmt(int total, int level, int len, int shape, bool noalloc, int 
         struct aws_logger nl;
         aws_logger_init_noalloc(&nl, vh_alloc(), &opt);
         aws_logger_set(&nl);
-        emit_log(level, 9, 1, len, shape);
+        int subj = 0;
+        for (int i = 0; i < NSUBJ; ++i) {
+            if (subj_len[i] == sl) {
+                subj = i;
+            }
+        }
+        emit_log(level, 9, 1, len, shape, subj);
         fflush(ms);
         vh_begin("NoAlloc");
         vh_int("filter", filter);
         vh_int("level", level);
         vh_int("plen", len);
+        vh_int("sl", subj_len[subj]);
         describe_line((uint8_t *)mem, memsz);
         vh_end();
         aws_logger_set(NULL);
@@ -266,8 +325,13 @@ static void scenario(char **lines, int nlines) {
     closed_flag = false;
     memset(payload, 'x', sizeof(payload) - 1);
     payload[sizeof(payload) - 1] = 0;
-    bool bg = true, have_logger = false, na = false;
+    bool bg = true, have_logger = false, na = false, rfc = false;
     int filter = 6;
+    static bool registered;
+    if (!registered) {
+        registered = true;
+        subjects_register();
+    }
     for (int i = 0; i < nlines; ++i) {
         char *dup = strdup(lines[i]);
         char *save = NULL;
@@ -278,6 +342,8 @@ static void scenario(char **lines, int nlines) {
             bg = strcmp(m, "bg") == 0;
             na = strcmp(m, "na") == 0;
             filter = atoi(strtok_r(NULL, " ", &save));
+            const char *df = strtok_r(NULL, " ", &save);
+            rfc = df && strcmp(df, "rfc") == 0;
             have_logger = true;
         } else if (strcmp(tok, "PRE") == 0) {
             parse_ops(&pre, &save);
@@ -290,11 +356,13 @@ static void scenario(char **lines, int nlines) {
         } else if (strcmp(tok, "FMT") == 0) {
             int total = atoi(strtok_r(NULL, " ", &save)), level = atoi(strtok_r(NULL, " ", &save));
             int len = atoi(strtok_r(NULL, " ", &save)), shape = atoi(strtok_r(NULL, " ", &save));
-            run_fmt(total, level, len, shape, false, 0);
+            const char *sl = strtok_r(NULL, " ", &save);
+            run_fmt(total, level, len, shape, false, 0, sl ? atoi(sl) : 13);
         } else if (strcmp(tok, "NOALLOC") == 0) {
             int f = atoi(strtok_r(NULL, " ", &save)), level = atoi(strtok_r(NULL, " ", &save));
             int len = atoi(strtok_r(NULL, " ", &save)), shape = atoi(strtok_r(NULL, " ", &save));
-            run_fmt(0, level, len, shape, true, f);
+            const char *sl = strtok_r(NULL, " ", &save);
+            run_fmt(0, level, len, shape, true, f, sl ? atoi(sl) : 12);
         }
         free(dup);
     }
@@ -315,7 +383,7 @@ static void scenario(char **lines, int nlines) {
         vh_int("main", vs_self());
         vh_end();
     } else {
-        struct aws_log_formatter_standard_options fopt = {.date_format = AWS_DATE_FORMAT_ISO_8601};
+        struct aws_log_formatter_standard_options fopt = {.date_format = rfc ? AWS_DATE_FORMAT_RFC822 : AWS_DATE_FORMAT_ISO_8601};
         aws_log_formatter_init_default(&formatter, vh_alloc(), &fopt);
         writer.vtable = &writer_vtable;
         writer.allocator = vh_alloc();
